@@ -117,8 +117,25 @@ class Speller:
                 return "(%s * (%s))" % (w(x["x"]), mag_from_keys(x["m"]))
         return w(e)
 
+    def sing_pure(self, e):
+        """an expression spelled with singular names only: a name, a product of such, an integer power of such (the API offers exactly
+        SingularNameFor * SingularNameFor and pow<N>(SingularNameFor))"""
+        op = e["op"]
+        if op == "unit":
+            return self.cat[e["id"]].get("singular")
+        if op == "mul":
+            l, r = self.sing_pure(e["l"]), self.sing_pure(e["r"])
+            return None if l is None or r is None else "(%s * %s)" % (l, r)
+        if op == "pow" and e["r"][1] == 1:
+            x = self.sing_pure(e["x"])
+            return None if x is None else "pow<%d>(%s)" % (e["r"][0], x)
+        return None
+
     def singular(self, e):
-        """maker (op) singular-name forms: only `x * leaf`, `x / leaf`, bare leaf, integer power of a leaf"""
+        """maker (op) singular-name forms: `x * leaf`, `x / leaf`, and everything spelled with singular names only"""
+        pure = self.sing_pure(e)
+        if pure is not None:
+            return pure
         op = e["op"]
         sg = lambda x: self.cat[x["id"]].get("singular") if x["op"] == "unit" else None
         if op == "unit":
